@@ -480,7 +480,51 @@ pub fn damaged_scenarios(scns: &[Scn]) -> Vec<Scn> {
     dscn
 }
 
+fn rawcopy_after_empty_reads(src: &[Vec<u8>], si: usize, i: usize, k: usize, raw_open: bool, st: &mut Stats, order: u64) {
+            st.evals += 1;
+            let run = |empty_reads: usize| -> Result<Vec<u8>, String> {
+                crate::util::guard(|| {
+                    let sink = SharedBuf::default();
+                    {
+                        let mut zw = zip::ZipWriter::new(sink.clone());
+                        let mut ar = zip::ZipArchive::new(std::io::Cursor::new(&src[si][..])).map_err(|e| e.to_string())?;
+                        let mut f = if raw_open { ar.by_index_raw(i) } else { ar.by_index(i) }.map_err(|e| format!("open: {e}"))?;
+                        for _ in 0..empty_reads {
+                            let n = f.read(&mut []).map_err(|e| format!("empty read: {e}"))?;
+                            if n != 0 {
+                                return Err(format!("empty read returned {n}"));
+                            }
+                        }
+                        zw.raw_copy_file(f).map_err(|e| format!("raw_copy_file: {e}"))?;
+                        zw.finish().map_err(|e| format!("finish: {e}"))?;
+                    }
+                    Ok(sink.snapshot())
+                })
+                .unwrap_or_else(|p| Err(format!("PANIC {p}")))
+            };
+            let (base, got) = (run(0), run(k));
+            let case = json!({"rawcopy_after_empty_reads": {"source": si, "entry": i, "empty_reads": k, "raw_open": raw_open}});
+            match (base, got) {
+                (Ok(b), Ok(g)) if b == g => st.class("writer-same/raw-copy-after-empty-reads"),
+                (Err(b), Err(g)) if b == g => st.class("raw-copy-refused-either-way"),
+                (b, g) => {
+                    st.class("WRITER-OUTPUT-DIFFERS");
+                    st.viol(
+                        "writer/empty-reads-before-raw-copy-change-output",
+                        format!("source {si} entry {i} (opened {}): after {k} zero-length read(s) on the handle the raw copy gives {}, without them {}", if raw_open { "raw" } else { "decoding" }, g.map(|v| format!("{} bytes (fnv {:x})", v.len(), crate::util::fnv(&v))).unwrap_or_else(|e| e), b.map(|v| format!("{} bytes (fnv {:x})", v.len(), crate::util::fnv(&v))).unwrap_or_else(|e| e)),
+                        case,
+                        order,
+                    );
+                }
+            }
+}
+
 fn replay(case: &Value, st: &mut Stats, seed: u64) {
+    if let Some(c) = case.get("rawcopy_after_empty_reads") {
+        let src = crate::props::c02::sources(seed);
+        rawcopy_after_empty_reads(&src, c["source"].as_u64().unwrap_or(0) as usize, c["entry"].as_u64().unwrap_or(0) as usize, c["empty_reads"].as_u64().unwrap_or(1) as usize, c["raw_open"].as_bool().unwrap_or(false), st, 0);
+        return;
+    }
     if case.get("writer").is_some() {
         let progs = writer_programs(seed);
         let src = crate::props::c02::sources(seed);
@@ -936,42 +980,7 @@ pub fn run(args: &Args) -> i32 {
         let zr = &zitems;
         let s = par_for(zitems.len() as u64, 4, |t, st| {
             let (si, i, k, raw_open) = zr[t as usize];
-            st.evals += 1;
-            let run = |empty_reads: usize| -> Result<Vec<u8>, String> {
-                crate::util::guard(|| {
-                    let sink = SharedBuf::default();
-                    {
-                        let mut zw = zip::ZipWriter::new(sink.clone());
-                        let mut ar = zip::ZipArchive::new(std::io::Cursor::new(&src_ref[si][..])).map_err(|e| e.to_string())?;
-                        let mut f = if raw_open { ar.by_index_raw(i) } else { ar.by_index(i) }.map_err(|e| format!("open: {e}"))?;
-                        for _ in 0..empty_reads {
-                            let n = f.read(&mut []).map_err(|e| format!("empty read: {e}"))?;
-                            if n != 0 {
-                                return Err(format!("empty read returned {n}"));
-                            }
-                        }
-                        zw.raw_copy_file(f).map_err(|e| format!("raw_copy_file: {e}"))?;
-                        zw.finish().map_err(|e| format!("finish: {e}"))?;
-                    }
-                    Ok(sink.snapshot())
-                })
-                .unwrap_or_else(|p| Err(format!("PANIC {p}")))
-            };
-            let (base, got) = (run(0), run(k));
-            let case = json!({"rawcopy_after_empty_reads": {"source": si, "entry": i, "empty_reads": k, "raw_open": raw_open}});
-            match (base, got) {
-                (Ok(b), Ok(g)) if b == g => st.class("writer-same/raw-copy-after-empty-reads"),
-                (Err(b), Err(g)) if b == g => st.class("raw-copy-refused-either-way"),
-                (b, g) => {
-                    st.class("WRITER-OUTPUT-DIFFERS");
-                    st.viol(
-                        "writer/empty-reads-before-raw-copy-change-output",
-                        format!("source {si} entry {i} (opened {}): after {k} zero-length read(s) on the handle the raw copy gives {}, without them {}", if raw_open { "raw" } else { "decoding" }, g.map(|v| format!("{} bytes (fnv {:x})", v.len(), crate::util::fnv(&v))).unwrap_or_else(|e| e), b.map(|v| format!("{} bytes (fnv {:x})", v.len(), crate::util::fnv(&v))).unwrap_or_else(|e| e)),
-                        case,
-                        (5 << 50) + t,
-                    );
-                }
-            }
+            rawcopy_after_empty_reads(src_ref, si, i, k, raw_open, st, (5 << 50) + t);
         });
         ctx.stats.merge(s);
     }
